@@ -453,3 +453,35 @@ fn c09_rev_empty_end_m2() {
 fn c09_rev_empty_slice_m2() {
     c09_rev_empty::<2>(true);
 }
+
+// C12 part 1 — two instances, same stream, identical finished sketches (all three views)
+fn c12_opt_two<const M: usize>() {
+    let mut a: Opt64 = OptDensMinHash::new(M, BuildHasherDefault::<NoHashHasher>::default());
+    let mut b: Opt64 = OptDensMinHash::new(M, BuildHasherDefault::<NoHashHasher>::default());
+    let x: u64 = kani::any();
+    a.sketch(&x);
+    b.sketch(&x);
+    // (densification of two instances in one harness runs out of memory; that the densification streams are
+    //  keyed by position only is shown by c09_*_densify_*, and entropy reachability by part 2)
+    for k in 0..M {
+        assert!(beq(a.hsketch[k], b.hsketch[k]) && a.init[k] == b.init[k]);
+        assert!(a.values[k] == b.values[k]);
+    }
+    assert!(a.nb_empty == b.nb_empty);
+    kani::cover!(a.values[0] == nohash(x), "witness");
+}
+fn c12_rev_two<const M: usize>() {
+    let mut a: Rev64 = RevOptDensMinHash::new(M, BuildHasherDefault::<NoHashHasher>::default());
+    let mut b: Rev64 = RevOptDensMinHash::new(M, BuildHasherDefault::<NoHashHasher>::default());
+    let x: u64 = kani::any();
+    a.sketch(&x);
+    b.sketch(&x);
+    for k in 0..M {
+        assert!(beq(a.hsketch[k], b.hsketch[k]) && a.init[k] == b.init[k]);
+        assert!(a.values[k] == b.values[k]);
+    }
+    assert!(a.nb_empty == b.nb_empty);
+    kani::cover!(a.values[0] == nohash(x), "witness");
+}
+dproof!(c12_optdens_m2, 5, c12_opt_two::<2>());
+dproof!(c12_revdens_m2, 6, c12_rev_two::<2>());
